@@ -24,9 +24,10 @@ Rep(n, x) == [i \in 1..n |-> x]
 User == <<117, 115, 114>>          \* "usr"
 Pass == <<112, 119>>               \* "pw"
 Profile(name) ==
-  CASE name = "listener"    -> [method |-> 0, cmds |-> {1, 3}]     \* client/socks5.Listener.Handshake
-    [] name = "adapter"     -> [method |-> 0, cmds |-> {1}]        \* protocol/adapter.SocksAdapter, no credentials
-    [] name = "adapterauth" -> [method |-> 2, cmds |-> {1}]        \* protocol/adapter.SocksAdapter with credentials
+  \* joined: the result is handed on as ONE "host:port" string (Go convention: net.JoinHostPort / SplitHostPort)
+  CASE name = "listener"    -> [method |-> 0, cmds |-> {1, 3}, joined |-> FALSE]   \* client/socks5.Listener.Handshake
+    [] name = "adapter"     -> [method |-> 0, cmds |-> {1}, joined |-> TRUE]       \* protocol/adapter.SocksAdapter, no credentials
+    [] name = "adapterauth" -> [method |-> 2, cmds |-> {1}, joined |-> TRUE]       \* protocol/adapter.SocksAdapter with credentials
 
 \* ---- greeting ----------------------------------------------------------------------------
 \* st: "ok" | "trunc" | "ver" | "nm0" | "nomethod";  next = bytes consumed by the greeting;
@@ -116,7 +117,23 @@ LenClass(n)  == IF n \in {0, 1, 2, 255} THEN ToString(n) ELSE "mid"
 \* input class of a negotiation as the reference sees it (part of every violation detail)
 HsClass(r) == Why(r) \o (IF r.q.hdr THEN ":cmd=" \o CmdClass(r.q.cmd) \o ":atyp=" \o AtypClass(r.q.atyp)
                                           \o (IF r.q.atyp = 3 THEN ":dlen=" \o LenClass(r.q.dlen) ELSE "")
+                                          \o (IF r.result /\ r.q.atyp = 3 /\ Contains(r.q.addr, 58) THEN ":colon" ELSE "")
                          ELSE "")
+
+\* ---- "host:port" strings (octet sequences; 58 ':' 91 '[' 93 ']' 37 '%') ---------------------------
+\* JoinHP brackets a host that contains ':' or '%'; SplitHP is its inverse and fails on anything ambiguous
+JoinHP(h, p) == IF Contains(h, 58) \/ Contains(h, 37) THEN <<91>> \o h \o <<93, 58>> \o p ELSE h \o <<58>> \o p
+SplitHP(s) ==
+  LET bad == [ok |-> FALSE, host |-> <<>>, port |-> <<>>] IN
+  IF s # <<>> /\ s[1] = 91 THEN
+     LET cl == {i \in DOMAIN s : s[i] = 93} IN
+     IF cl = {} THEN bad
+     ELSE LET e == CHOOSE i \in cl : \A j \in cl : i <= j IN
+          IF e + 1 > Len(s) \/ s[e + 1] # 58 \/ Contains(Rest(s, e + 1), 58) THEN bad
+          ELSE [ok |-> TRUE, host |-> Cut(s, 2, e - 1), port |-> Rest(s, e + 1)]
+  ELSE LET co == {i \in DOMAIN s : s[i] = 58} IN
+       IF Cardinality(co) # 1 \/ Contains(s, 91) \/ Contains(s, 93) THEN bad
+       ELSE LET k == CHOOSE i \in co : TRUE IN [ok |-> TRUE, host |-> Cut(s, 1, k - 1), port |-> Rest(s, k)]
 
 \* ---- what an observer may demand of an implementation -------------------------------------
 \* Observation o: [ok, cmd, host, ip, port, wrote, consumed, panic]
@@ -229,5 +246,17 @@ UdpViol(u, d, o) ==
 DestIs(u, f)        == u.st = "result" /\ f.port = u.port /\ AddrSame(u.atyp, u.addr, f.host, f.ip)
 ForwardIs(u, d, f)  == DestIs(u, f) /\ f.payload = Rest(d, u.pay)
 \* a datagram sent back to the application for a response e = [host, ip, port, payload] of destination e
+\* the same destination in two parsed headers (an IPv4-mapped IPv6 address and its IPv4 form are the same)
+NormIp(u) == CASE u.atyp = 1 -> V4Mapped(u.addr) [] u.atyp = 4 -> u.addr [] OTHER -> <<>>
+SameDestU(v, u) == /\ v.st = "result" /\ u.st = "result" /\ v.port = u.port
+                   /\ ((v.atyp = u.atyp /\ v.addr = u.addr) \/ (NormIp(u) # <<>> /\ NormIp(v) = NormIp(u)))
+\* a datagram sent back for the response `resp` to the datagram d (parsed u): d's header re-encoded + resp
+ReplyTo(g, u, resp) == LET v == RefUdp(g) IN SameDestU(v, u) /\ Rest(g, v.pay) = resp /\ g[1] = 0 /\ g[2] = 0
+\* q = [spok, shost, sip, sport, payload, resp]: a query handed to the control-channel DNS handler; its server
+\* string must split (SplitHostPort) into the parsed destination - unless that is the virtual DNS address
+\* `vd`, for which the relay substitutes a resolver of its choice
+IsVirtual(u, vd) == u.atyp = 1 /\ u.addr = vd
+QueryOf(u, d, q) == u.st = "result" /\ u.port = 53 /\ q.payload = Rest(d, u.pay)
+ServerOK(u, vd, q) == q.spok /\ (IsVirtual(u, vd) \/ (q.sport = u.port /\ AddrSame(u.atyp, u.addr, q.shost, q.sip)))
 ReplyIs(g, e) == LET v == RefUdp(g) IN DestIs(v, e) /\ Rest(g, v.pay) = e.payload /\ g[1] = 0 /\ g[2] = 0
 =============================================================================
